@@ -23,7 +23,6 @@ import common as C
 import c16_units as UU
 
 PID = "C16"
-TARGETS = ["Units/Gen_Tables.vo", "Units/Dispatch.vo", "Props/C16.vo"]
 TABLE_CHECKS = ["classes_plain", "mul_closed", "div_closed", "sidict", "sisig_agrees", "mul_table", "div_table",
                 "base_factor", "dimensionless", "siunits"]
 CMPS = ["==", "!=", "<", "<=", ">", ">="]
@@ -358,16 +357,17 @@ def table_violations(run, ctx, coq_off, py_off, names):
 def main(tier: str) -> int:
     run = UU.SafeRun(PID, tier)
     try:
-        dump = UU.regen()
+        tree = UU.Tree()
+        dump = tree.prepare()
         U = UU.load_units()
     except Exception as exc:  # noqa
         run.violation("harness-cannot-load-units", f"translator / import failed: {type(exc).__name__}: {exc}", {}, found_input=False)
         return run.finish()
-    ctx = UU.Ctx(U, dump)
+    ctx = UU.Ctx(U, dump, tree)
     import time as _t
     phase = {"translate": round(_t.time() - run.t0, 1)}
     _t0 = _t.time()
-    proofs_ok = run.check_proofs(TARGETS, extra_tb=[
+    proofs_ok = UU.check_proofs(run, tree, extra_tb=[
         "reflective translator translator/dump_units.py (tables regenerated from the imported module on every run; "
         "read back and compared with the live classes)",
         "binary64 arithmetic is executed (PrimFloat in vm_compute), never reasoned about: theorems about SI values are over an "
@@ -381,7 +381,7 @@ def main(tier: str) -> int:
     run.cov["phase_s"] = phase
 
     # ---- table checks: Coq offender lists and the independent Python evaluation
-    coq_off, counts, err = UU.coq_table_offenders(PID, UU.C16_CHECKS)
+    coq_off, counts, err = UU.coq_table_offenders(PID, UU.C16_CHECKS, tree)
     py_off = UU.python_table_offenders(ctx)
     if err:
         run.violation("table-checks-not-evaluable", "coqc could not evaluate the table checks over Gen_Tables.v: " + err,
@@ -507,8 +507,9 @@ def main(tier: str) -> int:
 def replay(path: str) -> int:
     """Re-run the call stored in a replay file on the current tree and re-evaluate the oracle."""
     body = json.loads(Path(path).read_text())
-    dump = UU.regen()
-    ctx = UU.Ctx(UU.load_units(), dump)
+    tree = UU.Tree()
+    dump = tree.prepare()
+    ctx = UU.Ctx(UU.load_units(), dump, tree)
     if "call" not in body:
         # a table finding: evaluate the table clauses on the live module again
         class Probe:
